@@ -107,7 +107,7 @@ func uniq(s []string) []string {
 func C11(p *ir.Program, r *report.R) {
 	c := C{p, r}
 	r.Floor = 110
-	r.Explain = "Decided: (registry) every ser.RegisterConcrete call in the module uses a distinct constant name and a distinct type, from init-time code; for every message interface the set of registered concrete types equals the set of case types of the handler's type switch (both directions, exemptions listed); (dispatch) encoder and decoder kind dispatch cover the same classes in the same precedence for the special cases; (canonical maps) the map writer sorts the keys before emitting on every path and the key order is strict byte order; (bounded allocation) in Stream.Kind a size beyond the remaining input / enclosing list sets the sticky error, every allocation in the decoder whose size derives from the stream is dominated by the no-error result of Kind or by an explicit bound, slice growth is incremental, the map decoder bounds its entry count; every decode entry point in the module is given a bytes.Reader or a non-zero limit; (no panic on input) the set of explicit panic sites and unchecked type assertions reachable from the decode entry points inside libs/ser equals the reviewed table. ADDED after seeded-change testing: the type cache is entered only under typeCacheMutex.Lock (greatest fixed point over the generator recursion; RLock does not count); encbuf.toBytes returns fresh memory (never the pooled buffer) ; Stream.Kind: after a successful readKind no path reaches the return without an error or the established bound (size <= rest of list / remaining limited input), whatever the kind; DecodeBytes/DecodeBytesWithType return success only with an exhausted reader (one value per byte string). Rounds 4-5: the time decoder accepts exactly the encoder's nanosecond range; the one long-lived decode target (cs.ProposalBlock) is nil whenever a new part set is installed. Round 6: no comparison of the codec is on the sum of two input-chosen unsigned values; intsize shifts until zero. NOT decided: round-trip equality, canonical integer forms, equality of decoded values; implicit runtime panics inside reflect operations other than allocation sizes."
+	r.Explain = "Decided: (registry) every ser.RegisterConcrete call in the module uses a distinct constant name and a distinct type, from init-time code; for every message interface the set of registered concrete types equals the set of case types of the handler's type switch (both directions, exemptions listed); (dispatch) encoder and decoder kind dispatch cover the same classes in the same precedence for the special cases; (canonical maps) the map writer sorts the keys before emitting on every path and the key order is strict byte order; (bounded allocation) in Stream.Kind a size beyond the remaining input / enclosing list sets the sticky error, every allocation in the decoder whose size derives from the stream is dominated by the no-error result of Kind or by an explicit bound, slice growth is incremental, the map decoder bounds its entry count; every decode entry point in the module is given a bytes.Reader or a non-zero limit; (no panic on input) the set of explicit panic sites and unchecked type assertions reachable from the decode entry points inside libs/ser equals the reviewed table. ADDED after seeded-change testing: the type cache is entered only under typeCacheMutex.Lock (greatest fixed point over the generator recursion; RLock does not count); encbuf.toBytes returns fresh memory (never the pooled buffer) ; Stream.Kind: after a successful readKind no path reaches the return without an error or the established bound (size <= rest of list / remaining limited input), whatever the kind; DecodeBytes/DecodeBytesWithType return success only with an exhausted reader (one value per byte string). Rounds 4-5: the time decoder accepts exactly the encoder's nanosecond range; the one long-lived decode target (cs.ProposalBlock) is nil whenever a new part set is installed. Round 6: no comparison of the codec is on the sum of two input-chosen unsigned values; intsize shifts until zero. Round 7: a type prefix never starts with the nil marker 0x00 (nameToDisfix skips leading zero bytes before each copy). NOT decided: round-trip equality, canonical integer forms, equality of decoded values; implicit runtime panics inside reflect operations other than allocation sizes."
 	r.Trusted = []string{"package reflect, encoding/json", "sort.Sort"}
 
 	serPath := ir.Module + "/libs/ser"
